@@ -94,6 +94,9 @@ func removeHopByHopHeaders(resp *http.Response) {
 func updateStoredHeaders(storedResp, resp *http.Response) {
 	omitted := hopByHopHeaders(resp.Header)
 	omitted["Content-Length"] = struct{}{}
+	// The stored Age belonged to the exchange that is being replaced: the freshened response's age
+	// starts from this 304 (its own Age field, if any, is merged below).
+	storedResp.Header.Del("Age")
 	for hdr, val := range resp.Header {
 		if _, ok := omitted[hdr]; ok {
 			continue
